@@ -169,3 +169,28 @@ where
       else go rest (i+1) (x + (b.toNat % 128) * 2 ^ s) (s + 7)
 
 end Go
+
+namespace Go
+
+/-! ### bytes.Reader / io.ReadFull -/
+
+/-- `*bytes.Reader`: the data and the read position -/
+structure BytesReader where
+  data : List UInt8
+  pos : Nat
+deriving Repr, DecidableEq
+
+/-- `(*bytes.Reader).Len()`: bytes not yet read -/
+def BytesReader.remaining (r : BytesReader) : Int := ((r.data.length - r.pos : Nat) : Int)
+
+/-- `io.ReadFull(r, buf)` with `len(buf) = n`: the new reader and the new content of `buf`, or `io.EOF` (nothing left and
+    `n > 0`) / `io.ErrUnexpectedEOF` (fewer than `n` bytes left; the reader is then exhausted, `buf` partly written —
+    callers in the translated subset return at once, so the partial state is not observable) -/
+def readFull (r : BytesReader) (n : Int) : M (BytesReader × List UInt8) :=
+  let k := n.toNat
+  if k = 0 then pure (r, [])
+  else if r.data.length ≤ r.pos then .error (.err "EOF")
+  else if r.data.length - r.pos < k then .error (.err "unexpected EOF")
+  else pure ({ r with pos := r.pos + k }, (r.data.drop r.pos).take k)
+
+end Go
